@@ -219,7 +219,10 @@ func (r *request) buildHTTP(mediaType, basePath string, producers map[string]run
 			goto DoneChoosingBodySource
 		}
 
-		producer := producers[mediaType]
+		producer, ok := producers[mediaType]
+		if !ok || producer == nil {
+			return nil, fmt.Errorf("no producer registered for media type %q", mediaType)
+		}
 		if err := producer.Produce(r.buf, r.payload); err != nil {
 			return nil, err
 		}
